@@ -518,15 +518,514 @@ def _short(x):
 
 
 # ----------------------------------------------------------------------
+# layer 2: real indexes
+# ----------------------------------------------------------------------
+
+def gen_text(rng, allow_list=True):
+    if allow_list and rng.random() < 0.12:
+        return [gen_text(rng, False) for _ in range(rng.randint(1, 3))]
+    return " ".join(rng.choice(WORDS) for _ in range(rng.choice([0, 1, 1, 2, 3, 6])))
+
+
+def first(v):
+    return v[0] if isinstance(v, (list, tuple)) else v
+
+
+class FSpec(object):
+    """One schema field: constructor, value generator, what its stored value / column value must read back as."""
+
+    def __init__(self, kind, make, gen, stored, col=None, col_exp=None, free_override=False, typed_col=True):
+        self.kind = kind              # stable name used in mechanism keys, e.g. "NUMERIC(int32,signed)"
+        self.make = make              # () -> FieldType
+        self.gen = gen                # rng -> value for add_document
+        self.stored = stored
+        self.col = col                # None or a short column description (has a column)
+        self.col_exp = col_exp or (lambda v: first(v))
+        self.free_override = free_override   # _stored_<f> may be any picklable (stored only, no column, not analysed)
+        self.typed_col = typed_col
+        self.name = None
+        self.field = None
+
+
+def text_col(rng):
+    from whoosh import columns
+    k = rng.choice(["True", "True", "VarBytes", "RefBytes", "CompressedBytes", "CompressedBlock"])
+    if k == "True":
+        return True, "default"
+    if k == "VarBytes":
+        return columns.VarBytesColumn(write_offsets_cutoff=rng.choice([0, 2, 2 ** 15])), k
+    if k == "RefBytes":
+        return columns.RefBytesColumn(), k
+    if k == "CompressedBytes":
+        return columns.CompressedBytesColumn(), k
+    return columns.CompressedBlockColumn(blocksize=1), k
+
+
+def gen_fspec(rng, flags):
+    from whoosh import fields, columns
+    kind = rng.choice(["TEXT", "TEXT", "KEYWORD", "ID", "NUMERIC", "NUMERIC", "NUMERIC", "FLOAT", "DECIMAL", "DATETIME",
+                       "BOOLEAN", "STORED", "NGRAM", "NGRAMWORDS", "IDLIST", "COLUMN", "COLUMN"])
+    stored = rng.random() < 0.6
+    sortable = rng.random() < 0.6
+    if kind == "TEXT":
+        sc, cname = text_col(rng) if sortable else (False, None)
+        vec = rng.random() < 0.2
+        return FSpec("TEXT", lambda: fields.TEXT(stored=stored, sortable=sc, vector=vec or None), gen_text, stored, cname,
+                     free_override=False)
+    if kind == "KEYWORD":
+        commas, lower = rng.random() < 0.3, rng.random() < 0.3
+        return FSpec("KEYWORD", lambda: fields.KEYWORD(stored=stored, sortable=sortable, commas=commas, lowercase=lower),
+                     lambda r: (",".join(first(gen_text(r, False)).split()) if commas else gen_text(r)), stored,
+                     "default" if sortable else None)
+    if kind == "ID":
+        sc, cname = text_col(rng) if sortable else (False, None)
+        return FSpec("ID", lambda: fields.ID(stored=stored, sortable=sc),
+                     lambda r: r.choice([r.choice(WORDS), "id-%d" % r.randrange(1000), gen_text(r, False), [r.choice(WORDS), "x"]]),
+                     stored, cname)
+    if kind == "NUMERIC":
+        bits = rng.choice([8, 16, 32, 64])
+        signed = rng.random() < 0.7
+        lo, hi = (-2 ** (bits - 1), 2 ** (bits - 1) - 1) if signed else (0, 2 ** bits - 1)
+
+        def gen(r):
+            if r.random() < 0.1:
+                return [gen_int(r, lo, hi) for _ in range(r.randint(1, 3))]
+            return gen_int(r, lo, hi)
+        return FSpec("NUMERIC(int%d,%s)" % (bits, "signed" if signed else "unsigned"),
+                     lambda: fields.NUMERIC(int, bits, stored=stored, signed=signed, sortable=sortable), gen, stored,
+                     "Numeric" if sortable else None)
+    if kind == "FLOAT":
+        signed = rng.random() < 0.8
+
+        def gen(r):
+            v = r.choice([0.0, 1.0, 1.5, 1e-30, 3.141592653589793, 2.5e10, r.uniform(0, 1e6), 1.7976931348623157e308, 5e-324])
+            return -v if signed and r.random() < 0.5 else v
+        return FSpec("NUMERIC(float,%s)" % ("signed" if signed else "unsigned"),
+                     lambda: fields.NUMERIC(float, stored=stored, signed=signed, sortable=sortable), gen, stored,
+                     "Numeric" if sortable else None)
+    if kind == "DECIMAL":
+        dp = rng.choice([1, 2, 4])
+        bits = rng.choice([32, 64])
+        lim = (2 ** (bits - 1) - 1) // (10 ** dp)
+
+        def gen(r):
+            q = decimal.Decimal(1).scaleb(-dp)
+            v = r.choice([decimal.Decimal(0), q, -q, q * 5, -q * 5, decimal.Decimal(lim), decimal.Decimal(-lim),
+                          decimal.Decimal(r.randint(-lim * 10 ** dp, lim * 10 ** dp)).scaleb(-dp)])
+            return v
+        return FSpec("NUMERIC(decimal%d)" % bits,
+                     lambda: fields.NUMERIC(int, bits, decimal_places=dp, stored=stored, sortable=sortable), gen, stored,
+                     "Numeric" if sortable else None, col_exp=lambda v: first(v))
+    if kind == "DATETIME":
+        if not flags["datetime_col"]:
+            sortable_dt = False
+        else:
+            sortable_dt = sortable
+
+        def gen(r):
+            return r.choice([datetime.datetime.min, datetime.datetime.max, datetime.datetime(1970, 1, 1),
+                             datetime.datetime(2024, 2, 29, 23, 59, 59, 999999), datetime.datetime(1, 1, 1, 0, 0, 0, 1),
+                             datetime.datetime(r.randint(1, 9999), r.randint(1, 12), r.randint(1, 28), r.randint(0, 23),
+                                               r.randint(0, 59), r.randint(0, 59), r.randint(0, 999999))])
+        return FSpec("DATETIME", lambda: fields.DATETIME(stored=stored, sortable=sortable_dt), gen, stored,
+                     "Numeric" if sortable_dt else None)
+    if kind == "BOOLEAN":
+        return FSpec("BOOLEAN", lambda: fields.BOOLEAN(stored=True), lambda r: r.random() < 0.5, True)
+    if kind == "STORED":
+        def gen(r):
+            v = gen_picklable(r)
+            return v if v is not None else 0
+        return FSpec("STORED", lambda: fields.STORED(), gen, True, free_override=True)
+    if kind == "NGRAM":
+        return FSpec("NGRAM", lambda: fields.NGRAM(minsize=2, maxsize=3, stored=stored, sortable=sortable),
+                     lambda r: first(gen_text(r, False)), stored, "default" if sortable else None)
+    if kind == "NGRAMWORDS":
+        return FSpec("NGRAMWORDS", lambda: fields.NGRAMWORDS(minsize=2, maxsize=3, stored=stored, sortable=sortable),
+                     lambda r: first(gen_text(r, False)), stored, "default" if sortable else None)
+    if kind == "IDLIST":
+        return FSpec("IDLIST", lambda: fields.IDLIST(stored=True), lambda r: r.choice([gen_text(r, False), [r.choice(WORDS), "q"]]),
+                     True)
+    # COLUMN(any column type)
+    bag = []
+    for fn, wt in SPECS:
+        bag += [fn] * wt
+    sp = rng.choice(bag)(rng, None)
+    if sp.name == "RefBytes":
+        sp = spec_refbytes(rng, None, distinct=rng.choice([1, 3, 10]))
+
+    def gen(r):
+        v = sp.gen(r)
+        return v
+
+    def col_exp(v):
+        return sp.exp(v)
+    fs = FSpec("COLUMN(%s)" % sp.name, lambda: fields.COLUMN(sp.col), gen, False, sp.name, col_exp=col_exp,
+               typed_col=sp.typed)
+    fs.raw_default = sp.default
+    return fs
+
+
+def _flags():
+    """Which value types are usable in this tree (defects located in files owned by another property)."""
+    return {"datetime_col": DATETIME_COLUMNS}
+
+
+# DATETIME(sortable=True): the column default (2**64-1 microseconds) cannot be decoded (OverflowError in
+# fields.py, owned by C13). Until that is repaired the generator keeps DATETIME columns out (stored
+# DATETIME values are exercised).
+DATETIME_COLUMNS = True
+
+
+class Model(object):
+    def __init__(self):
+        self.docs = {}       # key -> {"fields": {name: value}, "over": {name: value}}
+        self.order = []
+
+    def expected_stored(self, key, fspecs):
+        d = self.docs[key]
+        out = {"id": key}
+        for fs in fspecs:
+            if fs.name in d["fields"] and fs.stored:
+                v = d["over"].get(fs.name, d["fields"][fs.name])
+                if v is not None:
+                    out[fs.name] = v
+        return out
+
+    def expected_column(self, key, fs):
+        """(supplied?, expected translated value)"""
+        d = self.docs[key]
+        if fs.name in d["fields"]:
+            v = d["over"].get(fs.name, d["fields"][fs.name])
+            if v is not None:
+                return True, fs.col_exp(v)
+        return False, fs.col_default
+
+
+def gen_doc(rng, key, fspecs):
+    fields_, over = {}, {}
+    for fs in fspecs:
+        if rng.random() < 0.6:
+            v = fs.gen(rng)
+            if v is None:
+                continue
+            fields_[fs.name] = v
+            if (fs.stored or fs.col) and rng.random() < 0.12:
+                over[fs.name] = gen_picklable(rng) if (fs.free_override and rng.random() < 0.7) else fs.gen(rng)
+                if over[fs.name] is None:
+                    del over[fs.name]
+    return {"fields": fields_, "over": over}
+
+
+def doc_kwargs(key, d):
+    kw = {"id": key}
+    kw.update(d["fields"])
+    for k, v in d["over"].items():
+        kw["_stored_" + k] = v
+    return kw
+
+
+def verify(ctx, w, searcher, model, fspecs, where, sample_rng):
+    """Compare every documented read path of `searcher` with the model. Returns False after the first disagreement."""
+    from whoosh import query
+    reader = searcher.reader()
+    multi = "multi" if not reader.is_atomic() else "atomic"
+    nf0 = nfail(ctx)
+
+    def bad(path, fs, detail, **extra):
+        kind = fs.kind if fs is not None else "-"
+        col = (":col=%s" % fs.col) if (fs is not None and fs.col and "column" in path or path.startswith("Hit[")) and fs is not None and fs.col else ""
+        ctx.fail("idx.read", "%s[%s]:%s%s" % (path, multi, kind, col), dict(w, where=where, **extra), detail)
+        return False
+
+    docnums = list(reader.all_doc_ids())
+    ctx.count("idx.verifies")
+    if len(docnums) != len(model.docs) or reader.doc_count() != len(model.docs):
+        return bad("doc_count", None, "all_doc_ids=%d doc_count=%d model=%d" % (len(docnums), reader.doc_count(), len(model.docs)))
+    key_of = {}
+    # stored_fields by docnum (searcher and reader)
+    for dn in docnums:
+        sf = searcher.stored_fields(dn)
+        ctx.count("idx.stored.reads")
+        key = sf.get("id")
+        if key not in model.docs or key in key_of.values():
+            return bad("stored_fields", None, "doc %d has unknown or duplicate key %r" % (dn, key), docnum=dn)
+        key_of[dn] = key
+        exp = model.expected_stored(key, fspecs)
+        if not same_typed(sf, exp):
+            f = _first_diff(sf, exp)
+            fs = next((x for x in fspecs if x.name == f), None)
+            return bad("stored_fields", fs, "doc %s field %s: got %s expected %s" % (key, f, _short(sf.get(f, "<absent>")), _short(exp.get(f, "<absent>"))),
+                       doc=key, field=f)
+        ctx.count("idx.stored.absent_checked", sum(1 for fs in fspecs if fs.stored and fs.name not in exp))
+    if set(key_of.values()) != set(model.docs):
+        return bad("stored_fields", None, "live keys differ from model")
+    # all_stored_fields
+    asf = list(reader.all_stored_fields())
+    ctx.count("idx.all_stored_fields")
+    if len(asf) != len(docnums):
+        return bad("all_stored_fields", None, "yielded %d dicts for %d live docs" % (len(asf), len(docnums)))
+    for dn, sf in zip(docnums, asf):
+        if not same_typed(sf, model.expected_stored(key_of[dn], fspecs)):
+            return bad("all_stored_fields", None, "entry for doc %s differs: %s" % (key_of[dn], _short(sf)), doc=key_of[dn])
+    # iter_docs
+    for dn, sf in reader.iter_docs():
+        if dn not in key_of or not same_typed(sf, model.expected_stored(key_of[dn], fspecs)):
+            return bad("iter_docs", None, "entry (%d, %s) differs" % (dn, _short(sf)))
+    # columns: top-level reader and per leaf
+    colfs = [fs for fs in fspecs if fs.col]
+    leaves = list(reader.leaf_readers())
+    for fs in colfs:
+        has = [bool(lr.has_column(fs.name)) for lr, _ in leaves]
+        if any(has) and not all(has):
+            ctx.count("idx.column.some_segment_lacks_column")
+        if len(leaves) > 1:
+            ctx.count("idx.column.multi_readers")
+
+        def colbody():
+            cr = reader.column_reader(fs.name)
+            for dn in docnums:
+                supplied, exp = model.expected_column(key_of[dn], fs)
+                got = cr[dn]
+                ctx.count("idx.column.reads.supplied" if supplied else "idx.column.reads.default")
+                eq = same_typed if (fs.typed_col and supplied) else same
+                if not eq(got, exp):
+                    return bad("column_reader", fs, "doc %s (docnum %d, %s): got %s expected %s" % (
+                        key_of[dn], dn, "supplied" if supplied else "not supplied", _short(got), _short(exp)),
+                        doc=key_of[dn], field=fs.name, segments_having_column=has)
+            # iteration covers deleted rows too: compare the live positions
+            allv = list(cr)
+            ctx.count("idx.column.iters")
+            if len(allv) != reader.doc_count_all():
+                return bad("column_reader.iter", fs, "iter yielded %d rows, doc_count_all=%d" % (len(allv), reader.doc_count_all()),
+                           field=fs.name, segments_having_column=has)
+            for dn in docnums:
+                supplied, exp = model.expected_column(key_of[dn], fs)
+                if not same(allv[dn], exp):
+                    return bad("column_reader.iter", fs, "row %d: got %s expected %s" % (dn, _short(allv[dn]), _short(exp)), field=fs.name)
+            for lr, base in leaves:
+                lcr = lr.column_reader(fs.name)
+                for ldn in lr.all_doc_ids():
+                    supplied, exp = model.expected_column(key_of[base + ldn], fs)
+                    ctx.count("idx.column.leaf_reads")
+                    if not same(lcr[ldn], exp):
+                        return bad("leaf.column_reader", fs, "doc %s: got %s expected %s" % (key_of[base + ldn], _short(lcr[ldn]), _short(exp)),
+                                   doc=key_of[base + ldn], field=fs.name)
+            return True
+        ok, res = ctx.guard("idx.read", dict(w, where=where, path="column_reader[%s]" % multi, field=fs.name, fieldkind=fs.kind,
+                                             column=fs.col, segments_having_column=has), colbody)
+        if not ok or res is False:
+            return False
+    # Hits
+    keys = sorted(model.docs)
+    sample = keys if len(keys) <= 6 else sample_rng.sample(keys, 6)
+    for key in sample:
+        r = searcher.search(query.Term("id", key), limit=3)
+        ctx.count("idx.hit.searches")
+        if len(r) != 1:
+            return bad("search(Term(id))", None, "%d hits for key %s" % (len(r), key), doc=key)
+        hit = r[0]
+        exp = model.expected_stored(key, fspecs)
+        if not same_typed(hit.fields(), exp):
+            return bad("Hit.fields", None, "doc %s: %s expected %s" % (key, _short(hit.fields()), _short(exp)), doc=key)
+        d = searcher.document(id=key)
+        if not same_typed(d, exp):
+            return bad("Searcher.document", None, "doc %s: %s expected %s" % (key, _short(d), _short(exp)), doc=key)
+        for fs in fspecs:
+            ctx.count("idx.hit.getitem")
+            try:
+                got = hit[fs.name]
+                raised = False
+            except KeyError:
+                raised = True
+            if fs.name in exp:
+                if raised or not same_typed(got, exp[fs.name]):
+                    return bad("Hit[stored]", fs, "doc %s field %s: %s expected %s" % (key, fs.name, "KeyError" if raised else _short(got), _short(exp[fs.name])), doc=key, field=fs.name)
+            elif fs.col:
+                supplied, cexp = model.expected_column(key, fs)
+                if raised:
+                    # has_column() is false when no segment holds a column file for the field
+                    if supplied or reader.has_column(fs.name):
+                        return bad("Hit[column]", fs, "doc %s field %s: KeyError, expected %s" % (key, fs.name, _short(cexp)), doc=key, field=fs.name)
+                    ctx.count("idx.hit.keyerror_no_column_anywhere")
+                elif not same(got, cexp):
+                    return bad("Hit[column]", fs, "doc %s field %s (%s): got %s expected %s" % (key, fs.name, "supplied" if supplied else "not supplied", _short(got), _short(cexp)), doc=key, field=fs.name)
+                else:
+                    ctx.count("idx.hit.column_fallback")
+            else:
+                if not raised:
+                    return bad("Hit[absent]", fs, "doc %s field %s: got %s, expected KeyError" % (key, fs.name, _short(got)), doc=key, field=fs.name)
+                ctx.count("idx.hit.absent_checked")
+    return nfail(ctx) == nf0
+
+
+def _first_diff(a, b):
+    for k in sorted(set(a) | set(b)):
+        if k not in a or k not in b or not same_typed(a[k], b[k]):
+            return k
+    return None
+
+
+def index_case(ctx, rng):
+    from whoosh import fields
+    from whoosh.filedb.filestore import RamStorage, FileStorage, copy_to_ram
+    from whoosh.writing import BufferedWriter
+    flags = _flags()
+    fspecs = []
+    for i in range(rng.randint(2, 6)):
+        fs = gen_fspec(rng, flags)
+        fs.name = "f%d" % i
+        fspecs.append(fs)
+    schema = fields.Schema(id=fields.ID(stored=True, unique=True))
+    for fs in fspecs:
+        fs.field = fs.make()
+        schema.add(fs.name, fs.field)
+        if fs.col:
+            ct = fs.field.column_type
+            if hasattr(fs, "raw_default"):
+                fs.col_default = fs.raw_default
+            else:
+                fs.col_default = fs.field.from_column_value(ct.default_value())
+    storage_kind = rng.choice(["ram", "file", "mmap"])
+    compound = rng.random() < 0.6
+    frontend = rng.choice(["writer", "writer", "writer", "buffered"])
+    ncommits = rng.choice([1, 2, 3, 3, 4, 6, 8])
+    schema_sig = tuple((fs.kind, fs.stored, fs.col) for fs in fspecs)
+    w = {"layer": "index", "schema": ["%s=%s(stored=%s,column=%s)" % (fs.name, fs.kind, fs.stored, fs.col) for fs in fspecs],
+         "storage": storage_kind, "compound": compound, "frontend": frontend, "history": []}
+    ctx.count("idx.cases")
+    ctx.count("idx.storage.%s" % storage_kind)
+    ctx.count("idx.frontend.%s" % frontend)
+    ctx.count("idx.compound" if compound else "idx.loose")
+    d = None
+    if storage_kind == "ram":
+        st = RamStorage()
+    else:
+        d = tempfile.mkdtemp(prefix="vf-c08-")
+        st = FileStorage(d, supports_mmap=(storage_kind == "mmap"))
+    model = Model()
+    hist_sig = []
+    nsupplied = nabsent = 0
+    nkey = [0]
+
+    def newkey():
+        nkey[0] += 1
+        return "k%03d" % nkey[0]
+
+    def body():
+        nonlocal nsupplied, nabsent
+        ix = st.create_index(schema)
+        for c in range(ncommits):
+            merge_kind = rng.choice(["nomerge", "nomerge", "default", "optimize"])
+            ckw = {"nomerge": {"merge": False}, "default": {}, "optimize": {"optimize": True}}[merge_kind]
+            ops = []
+            if frontend == "buffered":
+                limit = rng.choice([2, 3, 100])
+                bw = BufferedWriter(ix, period=None, limit=limit, writerargs={"compound": compound}, commitargs=ckw)
+                try:
+                    for _ in range(rng.randint(1, 5)):
+                        key = newkey()
+                        doc = gen_doc(rng, key, fspecs)
+                        bw.add_document(**doc_kwargs(key, doc))
+                        model.docs[key] = doc
+                        ops.append(("add", key, sorted(doc["fields"]), sorted(doc["over"])))
+                    w["history"].append({"buffered_limit": limit, "merge": merge_kind, "ops": ops})
+                    s = bw.searcher()
+                    try:
+                        ctx.count("idx.buffered.verifies")
+                        if not verify(ctx, w, s, model, fspecs, "BufferedWriter.searcher() before close, commit %d" % c, rng):
+                            return
+                    finally:
+                        s.close()
+                finally:
+                    bw.close()
+            else:
+                wr = ix.writer(compound=compound)
+                live = sorted(model.docs)
+                for _ in range(rng.randint(1, 5)):
+                    op = rng.choice(["add", "add", "add", "delete", "update"])
+                    if op == "add" or not live:
+                        key = newkey()
+                        doc = gen_doc(rng, key, fspecs)
+                        wr.add_document(**doc_kwargs(key, doc))
+                        model.docs[key] = doc
+                        ops.append(("add", key, sorted(doc["fields"]), sorted(doc["over"])))
+                    elif op == "delete":
+                        key = live.pop(rng.randrange(len(live)))
+                        wr.delete_by_term("id", key)
+                        del model.docs[key]
+                        ops.append(("delete", key))
+                        ctx.count("idx.deletes")
+                    else:
+                        key = live.pop(rng.randrange(len(live)))
+                        doc = gen_doc(rng, key, fspecs)
+                        wr.update_document(**doc_kwargs(key, doc))
+                        model.docs[key] = doc
+                        ops.append(("update", key, sorted(doc["fields"]), sorted(doc["over"])))
+                        ctx.count("idx.updates")
+                wr.commit(**ckw)
+                w["history"].append({"merge": merge_kind, "ops": ops})
+            hist_sig.append((merge_kind, tuple(o[0] for o in ops)))
+            ctx.count("idx.commits")
+            ctx.count("idx.commit.%s" % merge_kind)
+            if c == ncommits - 1 or rng.random() < 0.6:
+                s = ix.searcher()
+                try:
+                    nseg = len(s.reader().leaf_readers()) if not s.reader().is_atomic() else 1
+                    ctx.count("idx.verifies.multisegment" if nseg > 1 else "idx.verifies.onesegment")
+                    if s.reader().has_deletions():
+                        ctx.count("idx.verifies.with_deletions")
+                    if not verify(ctx, w, s, model, fspecs, "after commit %d (%d segments)" % (c, nseg), rng):
+                        return
+                finally:
+                    s.close()
+        # survives copying to RAM / re-opening with the other mmap setting
+        if storage_kind != "ram":
+            if rng.random() < 0.5:
+                ram = copy_to_ram(st)
+                ix2 = ram.open_index()
+                where = "copy_to_ram"
+            else:
+                st2 = FileStorage(d, supports_mmap=(storage_kind != "mmap"))
+                ix2 = st2.open_index()
+                where = "reopened with supports_mmap=%s" % (storage_kind != "mmap")
+            ctx.count("idx.reopen.%s" % where.split(" ")[0])
+            s = ix2.searcher()
+            try:
+                verify(ctx, w, s, model, fspecs, where, rng)
+            finally:
+                s.close()
+
+    try:
+        ctx.guard("idx.write", w, body)
+    finally:
+        try:
+            st.close()
+        except Exception:  # noqa
+            pass
+        if d:
+            shutil.rmtree(d, ignore_errors=True)
+    for key, doc in model.docs.items():
+        nsupplied += len(doc["fields"])
+        nabsent += len(fspecs) - len(doc["fields"])
+    shape = ("idx", schema_sig, tuple(hist_sig), storage_kind, compound, frontend)
+    if len(w["history"]) > 4:
+        w = dict(w, history=w["history"][:4] + ["... %d more commits" % (len(w["history"]) - 4)])
+    return shape, (nsupplied > 0 and nabsent > 0), w
+
+
+# ----------------------------------------------------------------------
 # driver
 # ----------------------------------------------------------------------
 
 def run(ctx):
-    for idx in ctx.cases(quick=500, thorough=2500):
+    for idx in ctx.cases(quick=700, thorough=4000):
         rng = ctx.rng(idx)
         ctx.reseed_global(idx)
-        big = None
-        if not ctx.quick and idx % 40 == 0:
-            big = "ref65536" if (idx // 40) % 2 == 0 else "var32768"
-        shape, nontrivial, w = column_case(ctx, rng, big)
-        ctx.case(shape, nontrivial, sample=w if idx % 101 == 0 else None)
+        if idx % 5 < 2:
+            shape, nontrivial, w = index_case(ctx, rng)
+        else:
+            big = None
+            if not ctx.quick and idx % 100 == 0:
+                big = "ref65536" if (idx // 100) % 2 == 0 else "var32768"
+            shape, nontrivial, w = column_case(ctx, rng, big)
+        ctx.case(shape, nontrivial, sample=w if idx % 101 in (0, 1) else None)
